@@ -89,8 +89,12 @@ func (b *Buffer[K, V]) Add(n ReadBufItem[K, V]) *PolicyBuffers[K, V] {
 	tail := b.tail.Load()
 	size := tail - head
 	if size >= capacity {
-		// full buffer
-		return nil
+		// full buffer. Normally the producer that filled it is draining it right
+		// now. But if the previous batch had not been handed back (Free) at that
+		// moment, that producer could not, and nobody else ever would: the buffer
+		// would stay full and drop every item from then on. So a producer that
+		// finds the buffer full takes over the drain when the batch is available.
+		return b.drain()
 	}
 	verifBufferYield(2)
 	if b.tail.CompareAndSwap(tail, tail+1) {
@@ -102,35 +106,47 @@ func (b *Buffer[K, V]) Add(n ReadBufItem[K, V]) *PolicyBuffers[K, V] {
 			hash:  n.hash,
 		}))
 		if size == capacity-1 {
-			// try return new buffer
-			verifBufferYield(4)
-			if !atomic.CompareAndSwapPointer(&b.returned, b.policyBuffers, nil) {
-				// somebody already get buffer
-				return nil
-			}
-
-			pb := (*PolicyBuffers[K, V])(b.policyBuffers)
-			for i := 0; i < capacity; i++ {
-				index := int(head & mask)
-				verifBufferYield(5)
-				v := atomic.LoadPointer(&b.buffer[index])
-				if v != nil {
-					// published
-					pb.Returned = append(pb.Returned, *castToPointer[K, V](v))
-					// release
-					atomic.StorePointer(&b.buffer[index], nil)
-				}
-				head++
-			}
-
-			verifBufferYield(6)
-			b.head.Store(head)
-			return pb
+			return b.drain()
 		}
 	}
 
 	// failed
 	return nil
+}
+
+// drain takes the batch (if it is available) and moves all published items of a
+// full buffer into it. Only the holder of the batch modifies head.
+func (b *Buffer[K, V]) drain() *PolicyBuffers[K, V] {
+	// try return new buffer
+	verifBufferYield(4)
+	if !atomic.CompareAndSwapPointer(&b.returned, b.policyBuffers, nil) {
+		// somebody already get buffer
+		return nil
+	}
+	head := b.head.Load()
+	if b.tail.Load()-head < capacity {
+		// drained by somebody else in the meantime
+		atomic.StorePointer(&b.returned, b.policyBuffers)
+		return nil
+	}
+
+	pb := (*PolicyBuffers[K, V])(b.policyBuffers)
+	for i := 0; i < capacity; i++ {
+		index := int(head & mask)
+		verifBufferYield(5)
+		v := atomic.LoadPointer(&b.buffer[index])
+		if v != nil {
+			// published
+			pb.Returned = append(pb.Returned, *castToPointer[K, V](v))
+			// release
+			atomic.StorePointer(&b.buffer[index], nil)
+		}
+		head++
+	}
+
+	verifBufferYield(6)
+	b.head.Store(head)
+	return pb
 }
 
 // Load all items in buffer, used in test only to update policy proactive proactively
